@@ -246,7 +246,8 @@ theorem splitN1_request_line (m u v : Bytes) (hm : SP ∉ m) (hu : SP ∉ u) :
 
 /-- `_process_line` on `method SP target SP version CRLF rest` -/
 theorem processLine_request (cfg : Px.Parser.Cfg) (p : Px.Parser.Parser) (m u v rest : Bytes)
-    (hty : p.ty = .request) (hm : SP ∉ m) (hu : SP ∉ u) (hlf : ∀ c ∈ m ++ SP :: (u ++ SP :: v), c ≠ LF) :
+    (hty : p.ty = .request) (hne : m ≠ []) (hm : SP ∉ m) (hu : SP ∉ u)
+    (hlf : ∀ c ∈ m ++ SP :: (u ++ SP :: v), c ≠ LF) :
     Px.Parser.processLine cfg p (m ++ SP :: (u ++ SP :: v) ++ CRLF ++ rest) =
       match fromBytes cfg.allowedSchemes u with
       | .error e => .error (Px.Parser.urlErr e)
@@ -258,6 +259,10 @@ theorem processLine_request (cfg : Px.Parser.Cfg) (p : Px.Parser.Parser) (m u v 
   rw [splitCRLF_render (splitCRLF_none_of_noLF hlf) rest]
   simp only [splitN1_request_line m u v hm hu]
   rw [hty]
+  have hme : m.isEmpty = false := by cases m with
+    | nil => exact absurd rfl hne
+    | cons _ _ => rfl
+  simp only [hme]
   rfl
 
 /-- **C14 request line.**  A request line `method SP target SP version CRLF` whose
@@ -265,7 +270,7 @@ target is a well-formed `Target` (written without SP / LF) leaves the parser wit
 exactly the host (IPv6 literals bracketed), the explicit-or-default port and the
 path of the target; `CONNECT` selects the tunnel default. -/
 theorem C14_request_line (cfg : Px.Parser.Cfg) (m v rest : Bytes) (t : Target)
-    (h : t.WF cfg.allowedSchemes) (hm : SP ∉ m) (hu : SP ∉ renderT t)
+    (h : t.WF cfg.allowedSchemes) (hne : m ≠ []) (hm : SP ∉ m) (hu : SP ∉ renderT t)
     (hlf : ∀ c ∈ m ++ SP :: (renderT t ++ SP :: v), c ≠ LF)
     (hg : (m == cfg.connectMethod) = false → t.port ≠ some 0) :
     ∃ q, Px.Parser.processLine cfg (Px.Parser.init .request) (m ++ SP :: (renderT t ++ SP :: v) ++ CRLF ++ rest)
@@ -276,7 +281,7 @@ theorem C14_request_line (cfg : Px.Parser.Cfg) (m v rest : Bytes) (t : Target)
       q.port = some (match t.expected.port with
         | some v => v
         | none => if m == cfg.connectMethod then 443 else Int.ofNat cfg.defaultHttpPort) := by
-  rw [processLine_request cfg _ m _ v rest rfl hm hu hlf, C14_roundtrip _ t h]
+  rw [processLine_request cfg _ m _ v rest rfl hne hm hu hlf, C14_roundtrip _ t h]
   refine ⟨_, rfl, ?_⟩
   simp only [Px.Parser.init, Bool.false_or]
   unfold Px.Parser.setLineAttributes
@@ -365,7 +370,7 @@ theorem loop_error_of_processLine (cfg : Px.Parser.Cfg) (fuel : Nat) (p : Px.Par
 first request line (any exception: `ValueError`, `IndexError`, invalid scheme), the
 handler answers 400 and tears the connection down; no connect is attempted. -/
 theorem C14_reject_no_connect (cfg : Px.Parser.Cfg) (m u v rest : Bytes) (e : Px.Url.Err)
-    (hm : SP ∉ m) (hu : SP ∉ u) (hlf : ∀ c ∈ m ++ SP :: (u ++ SP :: v), c ≠ LF)
+    (hne : m ≠ []) (hm : SP ∉ m) (hu : SP ∉ u) (hlf : ∀ c ∈ m ++ SP :: (u ++ SP :: v), c ≠ LF)
     (he : fromBytes cfg.allowedSchemes u = .error e) (pool : Bool) :
     handleFirst cfg pool [m ++ SP :: (u ++ SP :: v) ++ CRLF ++ rest] = .reject400 := by
   have hlen : (m ++ SP :: (u ++ SP :: v) ++ CRLF ++ rest).length > 0 := by simp [CRLF]; omega
@@ -374,7 +379,7 @@ theorem C14_reject_no_connect (cfg : Px.Parser.Cfg) (m u v rest : Bytes) (e : Px
     unfold Px.Parser.parse
     simp only [Px.Parser.init, hlen, decide_true]
     rw [loop_error_of_processLine cfg _ _ _ (Px.Parser.urlErr e) rfl]
-    rw [processLine_request cfg _ m u v rest rfl hm hu hlf, he]
+    rw [processLine_request cfg _ m u v rest rfl hne hm hu hlf, he]
   unfold handleFirst Px.Parser.parseAll
   rw [hpar]
 
